@@ -19,8 +19,8 @@ impl HB for TH {
     const IS_DEFAULT: bool = false;
     fn make(max: usize, cap: Option<usize>, hk: u8) -> Cache<TH> {
         match cap {
-            None => LruCache::with_hasher(max, TH(hk)),
-            Some(c) => LruCache::with_capacity_and_hasher(max, c, TH(hk)),
+            None => LruCache::with_hasher(max, TH(hk, next_hasher_seed())),
+            Some(c) => LruCache::with_capacity_and_hasher(max, c, TH(hk, next_hasher_seed())),
         }
     }
 }
@@ -33,6 +33,11 @@ impl HB for DefaultHashBuilder {
         }
     }
 }
+
+thread_local! { static CUR_HK: std::cell::Cell<u8> = const { std::cell::Cell::new(3) }; }
+/// hasher kind new sibling caches are built with (set by the engine per history)
+pub fn set_current_hk(hk: u8) { CUR_HK.with(|c| c.set(hk)); }
+fn hk_of<S: HB>(_c: &Cache<S>) -> u8 { CUR_HK.with(|c| c.get()) }
 
 pub const IT_ITER: u8 = 0;
 pub const IT_KEYS: u8 = 1;
@@ -82,6 +87,10 @@ pub enum Op {
     DropCache { idx: usize },
     /// observe only: len/is_empty/current_size/max_size/capacity/hasher
     Scalars,
+    /// push an independently constructed cache (its own hasher instance)
+    NewCache { max: usize, cap0: Option<usize> },
+    /// `current.clone_from(&caches[src])`
+    CloneFrom { src: usize },
 }
 
 impl Op {
@@ -97,11 +106,11 @@ impl Op {
             Op::ShrinkTo { .. } => "shrink_to", Op::ShrinkFit => "shrink_to_fit", Op::Clear => "clear",
             Op::Iterate { kind, .. } => IT_NAMES[*kind as usize], Op::Into { kind, .. } => IT_NAMES[*kind as usize],
             Op::Debug => "debug", Op::CloneCache => "clone", Op::Switch { .. } => "switch", Op::DropCache { .. } => "drop_cache",
-            Op::Scalars => "scalars",
+            Op::Scalars => "scalars", Op::NewCache { .. } => "new_cache", Op::CloneFrom { .. } => "clone_from",
         }
     }
     pub fn kind_index(&self) -> u64 {
-        const KINDS: [&str; 36] = ["insert", "try_insert", "get", "get_entry", "peek", "peek_entry", "contains", "touch", "get_lru",
+        const KINDS: [&str; 38] = ["new_cache", "clone_from", "insert", "try_insert", "get", "get_entry", "peek", "peek_entry", "contains", "touch", "get_lru",
             "peek_lru", "peek_mru", "remove", "remove_entry", "remove_lru", "remove_mru", "mutate", "set_max_size", "retain", "reserve",
             "try_reserve", "try_reserve_fail", "shrink_to", "shrink_to_fit", "clear", "iter", "keys", "values", "drain", "into_iter",
             "into_keys", "into_values", "debug", "clone", "switch", "drop_cache", "scalars"];
@@ -146,6 +155,8 @@ impl Op {
             Op::Debug => "debug".into(), Op::CloneCache => "clone".into(),
             Op::Switch { idx } => format!("switch {}", idx), Op::DropCache { idx } => format!("drop_cache {}", idx),
             Op::Scalars => "scalars".into(),
+            Op::NewCache { max, cap0 } => format!("new_cache {} {}", max, match cap0 { None => "none".to_string(), Some(c) => c.to_string() }),
+            Op::CloneFrom { src } => format!("clone_from {}", src),
         }
     }
     pub fn from_text(s: &str) -> Result<Op, String> {
@@ -180,6 +191,8 @@ impl Op {
             "debug" => Op::Debug, "clone" => Op::CloneCache,
             "switch" => Op::Switch { idx: num(1)? }, "drop_cache" => Op::DropCache { idx: num(1)? },
             "scalars" => Op::Scalars,
+            "new_cache" => Op::NewCache { max: num(1)?, cap0: if t.get(2) == Some(&"none") { None } else { Some(num(2)?) } },
+            "clone_from" => Op::CloneFrom { src: num(1)? },
             other => return Err(format!("unknown op '{}'", other)),
         })
     }
@@ -438,6 +451,13 @@ pub fn apply<S: HB>(caches: &mut Vec<Cache<S>>, cur: &mut usize, op: &Op, held: 
             Op::CloneCache => { let d = caches[*cur].clone(); caches.push(d); }
             Op::Switch { idx } => { if *idx < caches.len() { *cur = *idx; } }
             Op::DropCache { idx } => { if caches.len() > 1 && *idx < caches.len() { let c = caches.remove(*idx); drop(c); if *cur >= caches.len() || *cur == *idx { *cur = 0; } else if *cur > *idx { *cur -= 1; } } }
+            Op::NewCache { max, cap0 } => { let hk = hk_of(&caches[*cur]); caches.push(S::make(*max, *cap0, hk)); }
+            Op::CloneFrom { src } => {
+                if *src != *cur && *src < caches.len() {
+                    if *cur < *src { let (l, r) = caches.split_at_mut(*src); l[*cur].clone_from(&r[0]); }
+                    else { let (l, r) = caches.split_at_mut(*cur); r[0].clone_from(&l[*src]); }
+                }
+            }
             Op::Scalars => { let c = &caches[*cur]; let _ = c.hasher(); out.scalars = [c.len(), c.is_empty() as usize, c.current_size(), c.max_size(), c.capacity()]; }
         }
     }));
